@@ -112,7 +112,8 @@ def congruence_rules(ctx, lib):
             r.ok(f"GradUGradV dim {dim}: K_e == k*wJ*dN^T dN")
         f = repo.func(BIL + ".GradU_A_GradV")
         r.instance(fn=f.qualname)
-        A = sym_matrix(dim, "A")
+        # a general (non-symmetric) tensor: the operator is documented as grad(u) . A . grad(v), rows following u
+        A = XArray((dim, dim), [Poly.var(f"A{i}{j}") for i in range(dim) for j in range(dim)])
         Ka = XArray.from_nested(g.call_func(f.qualname, g.obj, A, k, g.mt))
         bad = None
         for a in range(nPe):
@@ -125,7 +126,7 @@ def congruence_rules(ctx, lib):
                 if not is_zero(Ka[0, a, b] - want):
                     bad = f"entry ({a},{b})"
         if bad:
-            r.fail(f.qualname, f"dim{dim}", f.file, f.lineno, "GradU_A_GradV", f"anisotropic conductivity operator is not k*wJ*dN^T A dN: {bad}")
+            r.fail(f.qualname, f"dim{dim}", f.file, f.lineno, "GradU_A_GradV", f"anisotropic conductivity operator is not k*wJ*dN^T A dN for a non-symmetric A (rows follow grad u, columns grad v, as the user form (u.grad @ A).dot(v.grad)): {bad}")
         else:
             r.ok(f"GradU_A_GradV dim {dim}: K_e == k*wJ*dN^T A dN")
     # beam operators: einsum specs  "ep,epji,epjk,epkl->eil" with operands (w, X, S, X)
@@ -468,6 +469,9 @@ def patch_rank(ctx, lib, gl, names=None, kinds=("mass", "thermal-K", "elastic-K"
 
 
 def run(ctx):
+    from .c12 import coefficient_table_rule as _coefficient_table_rule
+
+    ctx.attempt(_coefficient_table_rule, ctx, "R2.11")
     # 'K is PSD, M is SPD' on any connected mesh, mirrored parts included: the weighted Jacobian is |det F| element by element
     from . import c08 as _c08
 
@@ -591,3 +595,33 @@ def thickness_guard_rule(ctx):
             r.ok(f"{ci.name}: model {mc.name}.dim in {dom}; {len(guards)} thickness guard(s) on self.dim == 2")
         else:
             r.fail(f.qualname, f"dead-thickness-guard:{ci.name}", f.file, n.lineno, f"{ci.name}.{f.name}", f"the thickness rescale is guarded by `self.dim == 2`, but _Simu.dim is {mc.name}.dim, which only takes the values {dom}: on a 2-D mesh K, C (and M) are never multiplied by the thickness while surface loads are - capacity sums to rho c area instead of rho c area thickness, and a flux load gives a temperature off by the factor thickness")
+
+
+def anisotropic_operator_rule(ctx, lib, rid):
+    """shared with C13 ('the same matrix as the built-in operator for that form'): Operators.Bilinear.GradU_A_GradV on an
+    opaque element with a general (non-symmetric) tensor A is  k * wJ * sum_ij dN_ia A_ij dN_jb  -- the per-point meaning of
+    the user form (u.grad @ A).dot(v.grad) that R13.8 checks on the form side (row = trial function, column = test)."""
+    repo = ctx.repo
+    r = ctx.rule(rid, "built-in anisotropic diffusion operator == k*wJ*sum_ij dN_ia A_ij dN_jb for a non-symmetric A (the meaning of the form (u.grad @ A).dot(v.grad))", min_instances=2)
+    f = repo.func(BIL + ".GradU_A_GradV")
+    for name in ("TRI3", "TETRA4"):
+        g = OpaqueGroup(lib, name, nPe=2)
+        dim, nPe = g.dim, g.nPe
+        r.instance(fn=f.qualname)
+        k = Poly.var("k")
+        A = XArray((dim, dim), [Poly.var(f"A{i}{j}") for i in range(dim) for j in range(dim)])
+        Ka = XArray.from_nested(g.call_func(f.qualname, g.obj, A, k, g.mt))
+        bad = None
+        for a in range(nPe):
+            for b in range(nPe):
+                want = Poly()
+                for i in range(dim):
+                    for j in range(dim):
+                        want = want + g.d[i][a] * A[i, j] * g.d[j][b]
+                want = want * k * g.wJ
+                if not is_zero(Ka[0, a, b] - want):
+                    bad = f"entry ({a},{b}) is {Ka[0, a, b]!r}, the form means {want!r}"
+        if bad:
+            r.fail(f.qualname, f"dim{dim}", f.file, f.lineno, "GradU_A_GradV", f"dim {dim}: {bad}: for a non-symmetric A the built-in operator integrates grad(u) . A^T . grad(v) (or another contraction), not the form it is documented for")
+        else:
+            r.ok(f"GradU_A_GradV dim {dim}: non-symmetric A, K_e[a,b] == k*wJ*dN_a . A . dN_b")
